@@ -18,17 +18,23 @@ import (
 // reading / validating / writing independent documents of these kinds at the same time are what
 // could race on the shared cell or leak a next-free link from one document into another.
 var freeListKinds = []string{
-	"valid-free-list",       // control: holes linked correctly
-	"hybrid-hidden-free",    // hybrid file listing the objects of its object streams as free
-	"head-missing",          // no entry for object 0 (one section): head rebuilt around the shared cell
-	"head-generation-0",     // head with generation 0 instead of 65535
-	"head-next-0-dangling",  // head says "empty list" although free entries exist (handleDanglingFree)
-	"chain-ends-elsewhere",  // last free entry links to an object number that does not exist
-	"free-links-in-use",     // a free entry links to an object that is in use
-	"head-links-in-use",     // the head links to an object that is in use
-	"free-generation-65535", // a dangling free entry that may never be reused
-	"free-self-link",        // a free entry links to itself
+	"head-missing-empty-list", // no entry for object 0 and no free object: the rebuilt head IS the shared cell, list empty
+	"head-missing",            // no entry for object 0 (one section), free entries exist
+	"head-next-0-dangling",    // head says "empty list" although free entries exist (handleDanglingFree)
+	"free-generation-65535",   // a dangling free entry that may never be reused
+	"chain-ends-elsewhere",    // last free entry links to an object number that does not exist
+	"head-links-in-use",       // the head links to an object that is in use
+	"free-links-in-use",       // a free entry links to an object that is in use
+	"head-generation-0",       // head with generation 0 instead of 65535
+	"free-self-link",          // a free entry links to itself
+	"hybrid-hidden-free",      // hybrid file listing the objects of its object streams as free (pdfcpu refuses to validate these)
+	"valid-free-list",         // control: holes linked correctly
 }
+
+// sharedCellKinds: after api.ReadContext the free-list head or the last free entry of such a document
+// holds &zero of package pdfcpu (head rebuilt by postProcess) or of package model (handleDanglingFree):
+// the same *int64 in every context (repro/freelist_race_test.go TestSharedZeroCells).
+var sharedCellKinds = []string{"head-missing-empty-list", "head-missing", "free-generation-65535"}
 
 func freeListDocs(t *vk.T, want int) []doc {
 	var out []doc
@@ -38,7 +44,7 @@ func freeListDocs(t *vk.T, want int) []doc {
 		spec := pdfgen.RandomSpec(rng, 3)
 		spec.Pages = 3
 		spec.Signatures, spec.Updates = 0, 0
-		spec.Annotations, spec.Unreferenced, spec.Info = true, true, true
+		spec.Annotations, spec.Unreferenced, spec.Info = true, kind != "head-missing-empty-list", true
 		spec.Write.Encrypter = nil
 		spec.Write.HolesAsGaps = false
 		spec.Write.XRef, spec.Write.ObjStm = pdfgen.XRefTable, false
@@ -48,9 +54,9 @@ func freeListDocs(t *vk.T, want int) []doc {
 		bt := pdfgen.Build(spec)
 		d := bt.Doc.Clone()
 		// three holes (free entries of generation 0) between unreferenced objects
-		var holes []int
-		for h := 0; h < 3; h++ {
-			holes = append(holes, d.Alloc().Num)
+		holes := []int{0, 0, 0}
+		for h := 0; h < 3 && kind != "head-missing-empty-list"; h++ {
+			holes[h] = d.Alloc().Num
 			d.Add(pdfgen.D("VerifJunk", h))
 		}
 		inUse := int64(bt.Truth.Objs.PageObjs[0])
@@ -58,7 +64,7 @@ func freeListDocs(t *vk.T, want int) []doc {
 		e := map[pdfgen.XRefKey]pdfgen.XRefEntryOverride{}
 		last := holes[len(holes)-1]
 		switch kind {
-		case "head-missing":
+		case "head-missing", "head-missing-empty-list":
 			e[pdfgen.XRefKey{Rev: -1, Num: 0}] = pdfgen.XRefEntryOverride{Drop: true}
 		case "head-generation-0":
 			e[pdfgen.XRefKey{Rev: -1, Num: 0}] = pdfgen.XRefEntryOverride{F3: F(0)}
@@ -85,9 +91,14 @@ func freeListDocs(t *vk.T, want int) []doc {
 			t.Count("freelist_docs_unwritable/"+kind, 1)
 			continue
 		}
-		if api.Validate(bytes.NewReader(w.Bytes), newConf()) != nil || api.Optimize(bytes.NewReader(w.Bytes), io.Discard, newConf()) != nil {
-			t.Count("freelist_docs_rejected/"+kind, 1)
+		// unlike the general documents these need not validate (pdfcpu rejects some of the kinds): what an
+		// operation returns for them alone - result or error - is what it must return under concurrency
+		if _, err := api.ReadContext(bytes.NewReader(w.Bytes), newConf()); err != nil {
+			t.Count("freelist_docs_unreadable/"+kind, 1)
 			continue
+		}
+		if api.Validate(bytes.NewReader(w.Bytes), newConf()) == nil && api.Optimize(bytes.NewReader(w.Bytes), io.Discard, newConf()) == nil {
+			t.Count("freelist_docs_valid", 1)
 		}
 		t.Count("freelist_docs/"+kind, 1)
 		out = append(out, doc{fmt.Sprintf("freelist/%d/%s", i, kind), w.Bytes})
